@@ -46,6 +46,8 @@ func checkC18(c *Ctx) {
 	c.rule("FLOW-prefix-confinement", "PrefixDB hands only prefixed keys to the wrapped store and strips exactly the prefix", 12)
 	c.rule("TYPESTATE-batch", "a written batch is closed; a closed batch rejects use", 8)
 	c.rule("LOCK-memdb", "MemDB lock pairing incl. the iterator hand-off", 8)
+	c.rule("DOM-bare-prefix-skipped", "a wrapped key equal to the bare prefix (an empty key inside the namespace) is skipped wherever the prefix iterator advances", 2)
+	checkBarePrefixSkipped(c)
 	c.rule("FRESH-prefix-buffer", "keys handed to the wrapped store are built in fresh memory, never by appending to a shared prefix slice", 1)
 	checkPrefixBuffers(c)
 
@@ -869,5 +871,68 @@ func checkPrefixBuffers(c *Ctx) {
 	}
 	if n < 1 {
 		c.anchorMissing(R, "no prefix-building append found in package db")
+	}
+}
+
+// checkBarePrefixSkipped: inside a prefix namespace the wrapped key that
+// equals the prefix itself would surface as the EMPTY key, which no backend
+// may yield.  It sorts first in forward order and last in reverse order, so
+// both the constructor (first position) and Next (every later position) must
+// test for it and advance once more.
+func checkBarePrefixSkipped(c *Ctx) {
+	l := c.L
+	const R = "DOM-bare-prefix-skipped"
+	for _, name := range []string{"newPrefixIterator", "*prefixDBIterator.Next"} {
+		fn := l.Func("db", name)
+		if fn == nil {
+			c.anchorMissing(R, "db."+name)
+			continue
+		}
+		isAdvance := func(in ssa.Instruction) bool {
+			cc := callCommon(in)
+			if cc == nil {
+				return false
+			}
+			if cc.IsInvoke() {
+				return cc.Method.Name() == "Next"
+			}
+			f := staticCallee(cc)
+			return f != nil && f.Name() == "Next"
+		}
+		found, ok := false, true
+		for _, b := range fn.Blocks {
+			iff := ifOf(b)
+			if iff == nil {
+				continue
+			}
+			call, isCall := stripTrivial(iff.Cond).(*ssa.Call)
+			if !isCall {
+				continue
+			}
+			f := staticCallee(&call.Call)
+			if f == nil || f.String() != "bytes.Equal" {
+				continue
+			}
+			a, bb := roleOf(l, call.Call.Args[0], "", 0), roleOf(l, call.Call.Args[1], "", 0)
+			isKey := func(r string) bool { return strings.HasPrefix(r, "Key(") }
+			isPfx := func(r string) bool { return r == "arg0" || strings.HasSuffix(r, "prefix") }
+			if !(isKey(a) && isPfx(bb) || isKey(bb) && isPfx(a)) {
+				continue
+			}
+			found = true
+			// on the `equal` edge an advance happens before any return
+			searchFrom([]point{blockStart(b.Succs[0])}, func(x ssa.Instruction) bool {
+				if isAdvance(x) {
+					return true
+				}
+				if _, isRet := x.(*ssa.Return); isRet {
+					ok = false
+					return true
+				}
+				return false
+			})
+		}
+		c.decide(R, "db."+name+" skips the bare-prefix key", l.pos(fn.Pos()), found && ok, "bytes.Equal(key, prefix) ⇒ advance once more",
+			"the wrapped key equal to the prefix is not skipped here: in reverse order (where it comes last) the namespace yields an entry with an empty key")
 	}
 }
